@@ -235,7 +235,7 @@ def auto_discharge(prog, f, site, sym=None):
             if re.match(r'^Range', ix):
                 if is_str:
                     return _discharge_str_slice(prog, f, sym, recv, ix, facts)
-                return None
+                return _discharge_clamped_slice(recv, ix)
             c = op_const(args[1])
             for (op, x, y) in facts:
                 if op == 'Lt' and _strip_ovf(x) == _strip_ovf(ix) and _same_len(y, f'len({recv})'):
@@ -302,6 +302,28 @@ def _parent_facts(prog, f, sym):
                 for cond, val in dominating_facts(prog, parent, bi, ps):
                     out += _normalise_fact(prog, parent, cond, val)
     return out
+
+
+def _discharge_clamped_slice(recv, ix):
+    """slice of a Vec / [T] by a range: a RangeTo / RangeFrom whose bound is 0, len or clamped with min(.., len) cannot be out of range"""
+    m = re.match(r'^(RangeTo|RangeFrom)\((.*)\)$', ix)
+    if not m:
+        m2 = re.match(r'^Range\(const\(0\), (.*)\)$', ix)
+        if not m2:
+            return None
+        b = m2.group(1)
+    else:
+        b = m.group(2)
+    b0 = _strip_ovf(b)
+    L = 'len(' + recv + ')'
+    if b0 in ('const(0)', L):
+        return 'D7: slice bound is 0 / len of the same collection'
+    mm = re.match(r'^min\((.*)\)$', b0)
+    if mm:
+        parts = _split_args(mm.group(1))
+        if len(parts) == 2 and any(_same_len(x, L) for x in parts):
+            return 'D7: slice bound is clamped with min(.., len) of the same collection'
+    return None
 
 
 def _discharge_str_slice(prog, f, sym, recv, ix, facts):
